@@ -63,8 +63,8 @@ let () =
         let nd = int_of_string (next ()) in
         let p_disks = List.init nd (fun _ ->
           let ds_equal = ni () in let ds_move = ni () in let ds_restore = ni () in let ds_remove = ni () in
-          let ds_change = ni () in let ds_zero = nb () in
-          { ds_equal; ds_move; ds_restore; ds_remove; ds_change; ds_zero }) in
+          let ds_change = ni () in let ds_insert = ni () in let ds_copy = ni () in let ds_zero = nb () in
+          { ds_equal; ds_move; ds_restore; ds_remove; ds_change; ds_insert; ds_copy; ds_zero }) in
         let p_scan_need_write = nb () in let p_blockmax = ni () in let p_used = ni () in
         let p_parity_access = bits (next ()) in let p_parity_open = bits (next ()) in let p_parity_blocks = nlist (next ()) in let p_parity_disk_blocks = nlist (next ()) in let p_parity_resize = bits (next ()) in let p_parity_modified = bits (next ()) in
         let p_prehash_fail = nb () in let sync_work = nb () in let p_sync_errors = nb () in let p_array_empty = nb () in
